@@ -42,10 +42,11 @@ class FakeTree:
         return FakeTree.response
 
 
-def base_args(ctx, extra):
+def base_args(ctx, extra, user_cfg=None):
+    """args as merge_config builds them: ChainMap(command line, user configuration section, DEFAULTS)"""
     cli = dict(server="srv", url="http://x", user="u", dryrun=True, version=203)
     cli.update(extra)
-    return ChainMap(cli, dict(ofxget.DEFAULTS))
+    return ChainMap(cli, dict(user_cfg or {}), dict(ofxget.DEFAULTS))
 
 
 def sym_ids(ctx, name, n):
@@ -159,7 +160,11 @@ def h_all(ctx, n, end):
     ofx, entries = mk_response(ctx, n)
     FakeTree.response = ofx
     ctx.stub(ofxget, "OFXTree", FakeTree)
-    args = base_args(ctx, dict(all=True))
+    # accounts stored earlier in the user's configuration must not take the place of what the server reports
+    stale = {}
+    if ctx.bool("stale_accounts_in_user_config"):
+        stale = dict(checking=["stale-1"], creditcard=["stale-2"], bankid="OLDBANK")
+    args = base_args(ctx, dict(all=True), stale)
     log = run_command(ctx, ofxget.request_stmtend if end else ofxget.request_stmt, args)
     calls = [c for c in log if c[0] == "statements"]
     ctx.check("exactly one statement request call is made", len(calls) == 1)
